@@ -203,7 +203,8 @@ pub trait Engine: Sync {
     fn worker_stack(&self) -> usize {
         256 << 20
     }
-    /// Seconds without a heartbeat before a run is declared hung.
+    /// Seconds without a heartbeat before a run is declared hung: CPU seconds while it computes,
+    /// wall-clock seconds while it sits blocked (see `spawn_watchdog`).
     fn hang_secs(&self) -> u64 {
         60
     }
@@ -299,17 +300,48 @@ pub fn heartbeat() {
     HEARTBEAT.fetch_add(1, Ordering::Relaxed);
 }
 
+/// CPU time consumed so far by this process (all threads) / by the calling thread, in seconds.
+/// Time bounds in oracles are stated in CPU time so that they do not depend on machine load.
+pub fn process_cpu_secs() -> f64 {
+    cpu_clock(libc::CLOCK_PROCESS_CPUTIME_ID)
+}
+
+pub fn thread_cpu_secs() -> f64 {
+    cpu_clock(libc::CLOCK_THREAD_CPUTIME_ID)
+}
+
+fn cpu_clock(id: libc::clockid_t) -> f64 {
+    let mut ts = libc::timespec { tv_sec: 0, tv_nsec: 0 };
+    // SAFETY: plain syscall filling a local struct
+    let rc = unsafe { libc::clock_gettime(id, &mut ts) };
+    if rc != 0 {
+        return 0.0;
+    }
+    ts.tv_sec as f64 + ts.tv_nsec as f64 * 1e-9
+}
+
+/// A worker hangs when it makes no progress (no heartbeat) while either burning `secs` seconds of
+/// CPU (a loop) or sitting for `secs` seconds of wall-clock time with practically no CPU use (a
+/// deadlock). A worker that is merely starved by other load on the machine matches neither.
 fn spawn_watchdog(secs: u64) {
     std::thread::spawn(move || {
         let mut last = HEARTBEAT.load(Ordering::Relaxed);
         let mut since = Instant::now();
+        let mut cpu_since = process_cpu_secs();
         loop {
             std::thread::sleep(Duration::from_millis(500));
             let now = HEARTBEAT.load(Ordering::Relaxed);
             if now != last {
                 last = now;
                 since = Instant::now();
-            } else if since.elapsed() > Duration::from_secs(secs) {
+                cpu_since = process_cpu_secs();
+                continue;
+            }
+            let wall = since.elapsed().as_secs_f64();
+            let cpu = process_cpu_secs() - cpu_since;
+            let spinning = cpu >= secs as f64;
+            let blocked = wall >= secs as f64 && cpu < 0.02 * wall;
+            if spinning || blocked {
                 let out = std::io::stdout();
                 let mut l = out.lock();
                 let _ = writeln!(l, "HANG");
